@@ -345,10 +345,28 @@ def reparse_equivalent(root, cls=models.File, what='reparse'):
         ca, cb = comments_of(root.token_store), comments_of(again.token_store)
         if ca != cb:
             raise Fail('%s: block comments differ after re-parse: %r vs %r (text %r)' % (what, ca, cb, text))
+        tokens_consistent(root.token_store, what=what)
         va, vb = valuedump(root), valuedump(again)
         if va != vb:
             raise Fail('%s: the value-level properties of the edited model say something else than those of its re-parsed text: %s (text %r)' % (what, _first_diff(va, vb), text))
         return again
+
+
+def tokens_consistent(store, what='tokens'):
+    """Every token's value and raw text describe each other (C12's statement, asserted on whole documents after edits): for each
+    token class with a codec, _parse_value(raw_text) equals what the token says its value (and indent) is."""
+    with NoTracing():
+        for t in store:
+            cls = type(t)
+            if not hasattr(cls, '_parse_value') or not t.raw_text:
+                continue
+            try:
+                meaning = cls._parse_value(t.raw_text)
+            except Exception as e:
+                raise Fail('%s: token %r no longer parses as a %s: %r' % (what, t.raw_text, cls.__name__, e))
+            says = (t.indent, t.value) if isinstance(t, models.BlockComment) else t.value
+            if meaning != says:
+                raise Fail('%s: token %s with text %r says its value is %r but the text means %r' % (what, cls.__name__, t.raw_text, says, meaning))
 
 
 def _first_diff(a, b, path=''):
